@@ -114,8 +114,56 @@ def ra_cases(ra):
     return out
 
 
+# ---- dhcpflow: one observed step -> the facts the kinds 30 (C13), 40 (C10), 41 (C09) are about
+def flow_row(listing, ip):
+    for r in listing or []:
+        if r[0] == ip:
+            return r
+    return None
+
+
+def flow_facts(server, st):
+    r = st["reply"]
+    f = {"got": 0 if r is None else 1, "echo_ok": 0, "sid_ok": 0, "row_ok": 0}
+    before, after = st["before"], st["after"]
+    if before is None or after is None:
+        f["changed"] = 1                         # the listing could not be read: never counted as "unchanged"
+    elif r is None:
+        f["changed"] = 0 if before == after else 1
+    else:
+        y = r["yiaddr"]
+        f["changed"] = 0 if [x for x in before if x[0] != y] == [x for x in after if x[0] != y] else 1
+    if r is not None:
+        f["echo_ok"] = 1 if (r["op"] == 2 and r["xid"] == st["xid"] and r["htype"] == 1 and r["hlen"] == 6 and r["chaddr"] == st["chaddr"]
+                             and r["giaddr"] == "0.0.0.0" and r["flags"] == st["flags"]) else 0
+        sid = r["options"].get("54")
+        f["sid_ok"] = 1 if (sid is not None and sid == socket.inet_aton(server).hex() and r["src_ip"] == server) else 0
+        row = flow_row(after, r["yiaddr"])
+        cid = ":".join("%02x" % b for b in bytes.fromhex(st["client_id"]))
+        f["row_ok"] = 1 if (row is not None and row[1] == cid) else 0
+        o51 = r["options"].get("51")
+        f["opt51"] = None if o51 is None or len(o51) != 8 else int(o51, 16)
+        f["listed"] = 0 if row is None else max(0, row[3] - row[2])
+        f["is_ack"] = 1 if r["options"].get("53") == "05" else 0
+    return f
+
+
 def cases(pid, obs):
     out = []
+    flow = obs.get("dhcpflow") or {}
+    for st in flow.get("steps", []):
+        f = flow_facts(flow["server"], st)
+        if pid == "C13":
+            out.append("30 %d %d %d %d %d %d %d" % (st["msgtype"], st["sid_class"], f["got"], f["echo_ok"], f["sid_ok"], f["changed"], f["row_ok"]))
+        if pid == "C10" and f["got"]:
+            out.append("40 %d %d %d %d 300 86400" % (f["is_ack"], 0 if f["opt51"] is None else 1, f["opt51"] or 0, f["listed"]))
+    if pid == "C09":
+        by = {st["name"]: st["reply"] for st in flow.get("steps", [])}
+        for k, (a, b) in enumerate((("discover", "request-selecting"), ("request-selecting", "request-renewing"))):
+            if by.get(a) and by.get(b):
+                out.append("41 %d %d %d" % (k, ip4(by[a]["yiaddr"]), ip4(by[b]["yiaddr"])))
+            elif by.get(a) and b in by:
+                out.append("41 %d %d 0" % (k, ip4(by[a]["yiaddr"])))        # no ACK at all: not the offered address either
     if pid == "C17" and "ra" in obs and "plan" in obs["ra"]:
         out += ra_cases(obs["ra"])
     if pid == "C12" and "dhcp" in obs:
